@@ -168,6 +168,12 @@ def nest_strategy():
                     g = draw(st.sampled_from(sorted(cand_nl)))
                     out.append(ind + 'nonlocal %s' % g)
                     declared.add(g)
+            elif kind == 'class' and draw(st.integers(0, 3)) == 0:
+                # a global declaration in a class body (matters when the class is nested in a function that binds the name)
+                g = draw(st.sampled_from(POOL))
+                out.append(ind + 'global %s' % g)
+                declared.add(g)
+                out.append(ind + 'cg_%d = %s' % (depth, g))
             bound_here = set(params)
             n = draw(st.integers(1, 4))
             for _ in range(n):
